@@ -12,7 +12,7 @@ def model_text(ident, role):
     s = ident if role == "state" else "x"
     p = ident if role == "param" else "a"
     w = ident if role == "inter" else "w"
-    return (f"states({s} = 1.5, y = 0.5)\nparameters({p} = 2)\n{w} = {p} * {s} + y\nd{s}_dt = {w} - {s}\ndy_dt = {s} * {p}\n"), s, p, w
+    return (f"states({s} = 1.5, y = 0.5)\nparameters({p} = 2)\n{w} = ({p} * {s} + y) * ({p} * {s} + y)\nd{s}_dt = {w} - {s}\ndy_dt = {s} * {p}\n"), s, p, w
 
 
 def check_ident(rec, backend, workdir=None):
@@ -69,6 +69,10 @@ def check_ident(rec, backend, workdir=None):
                 modelcase._cmp(bad, stats, fn, n, vals[mod.index(kind, n)], exp[key(n)], {})
                 for b in bad:
                     out["problems"].append({"kind": "captured", "fn": fn, "name": n, "got": b["got"], "want": b["want"]})
+        # the generator classes called directly with the documented option use_cse=True (numpy, jax): the functions
+        # replace the ones of the module and must return the same numbers
+        if backend in ("numpy", "jax"):
+            direct_use_cse(ode, mod, backend, t, S, P, sn, [w, f"d{s}_dt", "dy_dt"], rec, ren, out, stats)
         # initial values in their slots
         iv = list(mod.init_states())
         if abs(float(iv[mod.index("state", s)]) - 1.5) > 1e-12 or abs(float(iv[mod.index("state", "y")]) - 0.5) > 1e-12:
@@ -78,6 +82,34 @@ def check_ident(rec, backend, workdir=None):
     finally:
         mod.close()
     return out
+
+
+def direct_use_cse(ode, mod, backend, t, S, P, sn, mon, rec, ren, out, stats):
+    from gotranx.codegen.python import PythonCodeGenerator, Format as PF
+    from gotranx.codegen.jax import JaxCodeGenerator
+    import numpy as np
+
+    cg = (JaxCodeGenerator if backend == "jax" else PythonCodeGenerator)(ode, format=PF.none)
+    try:
+        ns = dict(mod.ns)
+        exec(compile(cg.rhs(use_cse=True) + "\n" + cg.monitor_values(use_cse=True), "<use_cse>", "exec"), ns)
+    except Exception as ex:  # noqa: BLE001
+        out["problems"].append({"kind": "runtime-error", "fn": "rhs(use_cse=True)", "message": f"{type(ex).__name__}: {ex}"[:200]})
+        return
+    for fn, names, kind, key in (("rhs", sn, "state", lambda n: ren(f"d{n}_dt")), ("monitor_values", mon, "monitor", ren)):
+        try:
+            vals = [float(v) for v in np.asarray(ns[fn](t, np.array(S, dtype=float), np.array(P, dtype=float))).ravel()]
+        except Exception as ex:  # noqa: BLE001
+            out["problems"].append({"kind": "runtime-error", "fn": fn + "(use_cse=True)", "message": f"{type(ex).__name__}: {ex}"[:200]})
+            continue
+        if len(vals) != len(names):
+            out["problems"].append({"kind": "lengths", "fn": fn + "(use_cse=True)", "got": len(vals), "want": len(names)})
+            continue
+        for n in names:
+            bad = []
+            modelcase._cmp(bad, stats, fn, n, vals[mod.index(kind, n)], rec["den"][key(n)], {})
+            for b in bad:
+                out["problems"].append({"kind": "captured", "fn": fn + "(use_cse=True)", "name": n, "got": b["got"], "want": b["want"]})
 
 
 def _worker(args):
@@ -98,7 +130,7 @@ def check_ident_missing(rec, backend):
     from . import gx
     ident = rec["id"]
     text = (f'parameters("A", {ident} = 2)\nstates("A", z = 1)\nexpressions("A")\ndz_dt = -z\n'
-            f'states("B", x = 1.5, y = 0.5)\nexpressions("B")\nw = {ident} * x + y\ndx_dt = w - x\ndy_dt = x * {ident}\n')
+            f'states("B", x = 1.5, y = 0.5)\nexpressions("B")\nw = ({ident} * x + y) * ({ident} * x + y)\ndx_dt = w - x\ndy_dt = x * {ident}\n')
     out = {"id": ident, "role": "missing", "backend": backend, "text": text, "outcome": None, "problems": []}
     try:
         ode = gx.load(text)
